@@ -20,7 +20,7 @@ func init() {
 			"R2: a node is handed back to the pool only on an edge where its reference count is tested to be zero (or <=0) and after the unlink routine was applied to it on every path. " +
 			"R3: Add pairs the list append with the index store, Remove pairs the unlink with the index delete. " +
 			"R4: Iterator() increments the reference count of the node it starts from and stores that node in the iterator; Close() calls the release routine exactly once and clears the pointer. " +
-			"R5: in the advance routine every new cursor value gets a reference (+1) on its incoming path and the old cursor loses one (-1) before, also between two consecutive steps. R6: payload is read only from live nodes (from the index, from a skip-removed routine, or tested not to carry the removed mark on every path); R7: cursor routines get only iterator cursors (as argument, or - routines of the iterator itself - from the receiver's cursor); R8: links are written only by the list primitives (node methods, methods of a dedicated list type, the unlink and the append routine); R9: the unlink routine reports nil or its own successor as new head (or, when it re-targets the head itself, writes its own successor and only where the node is known to be the head); R10: release drops its reference before testing the count. The private routines (unlink, append, release, advance) are resolved by what they do (neighbour rewiring, payload fill, reference give-back, loop that moves a reference), wherever they live - also written out in place in the API method. R11: the unlink routine overwrites every payload field of the node (key and value) with its zero value on every path that changes the node. R12: the pointer surgery of the unlink routine: what a neighbour receives is the node's own link of the same name (or nil where the node is known to have no neighbour there), read before the node's own links are cleared; a path that rewires one neighbour rewires the other one too. R13: the key and the value of an Add are stored only into the node the map's tail field designates (read before the field is re-targeted, possibly handed to the append routine at every call) - the end sentinel the iterators at the end are parked on becomes the new entry - never into a node reached through a link or taken from elsewhere. R14: where the unlink routine recognises the head by its nil back link, the head field is assigned only the new head that routine reported, a node allocated in place whose back link is never set, or a node whose back link is cut in the same step.",
+			"R5: in the advance routine every new cursor value gets a reference (+1) on its incoming path and the old cursor loses one (-1) before, also between two consecutive steps. R6: payload is read only from live nodes (from the index, from a skip-removed routine, or tested not to carry the removed mark on every path); R7: cursor routines get only iterator cursors (as argument, or - routines of the iterator itself - from the receiver's cursor); R8: links are written only by the list primitives (node methods, methods of a dedicated list type, the unlink and the append routine); R9: the unlink routine reports nil or its own successor as new head (or, when it re-targets the head itself, writes its own successor and only where the node is known to be the head); R10: release drops its reference before testing the count. The private routines (unlink, append, release, advance) are resolved by what they do (neighbour rewiring, payload fill, reference give-back, loop that moves a reference), wherever they live - also written out in place in the API method. R11: the unlink routine overwrites every payload field of the node (key and value) with its zero value on every path that changes the node. R12: the pointer surgery of the unlink routine: what a neighbour receives is the node's own link of the same name (or nil where the node is known to have no neighbour there), read before the node's own links are cleared; a path that rewires one neighbour rewires the other one too. R13: the key and the value of an Add are stored only into the node the map's tail field designates (read before the field is re-targeted, possibly handed to the append routine at every call) - the end sentinel the iterators at the end are parked on becomes the new entry - never into a node reached through a link or taken from elsewhere. R14: where the unlink routine recognises the head by its nil back link, the head field is assigned only the new head that routine reported, a node allocated in place whose back link is never set, or a node whose back link is cut in the same step. R3 pairs the two steps of Remove per path, in either order (an index delete is matched by an unlink before or behind it). The unlink routine may be split into a function that decides what happens to the node and a private helper of it that does the pointer surgery and whose result the function returns unchanged: the role then goes to the outer function (the one the call sites call), and the verdict is taken on the helper-inlined normal form, where the routine is one body again. R9 reads \"successor\" as the link towards the tail (the link of the filled sentinel into which the append routine hangs the fresh one): the predecessor reported as new head is a violation. R15: the unlink routine cuts links (the node's own and its neighbours') only where the node's reference count is known to be zero - by a test in the routine or at every call of it - so a removed node an iterator is parked on stays linked until the iterator has left it.",
 		NotDecided: "order and liveness of what an iterator returns over all histories (a value statement).",
 	})
 	register(&Check{
@@ -58,6 +58,10 @@ type mapRoles struct {
 	state      *types.Var
 	deleted    int64
 	hasDeleted bool
+	// unlinkInner: the private helper the unlink routine delegates the pointer surgery to (liftUnlinkV, v_map.go); nil
+	// when the routine is one body.
+	unlinkInner     *ssa.Function
+	unlinkInnerSubj int
 }
 
 // isNodePtr reports whether t is a pointer to the node type.
@@ -266,6 +270,17 @@ func resolveMapRoles(c *Ctx) *mapRoles {
 		c.Fatalf("role %q: expected exactly one routine that rewires the neighbours of a node it is given, found %d %v", "node.unlink", len(ucands), names)
 	}
 	r.unlink, r.unlinkSubj = ucands[0].fn, ucands[0].subj
+	// a routine that is split into "policy" and "pointer surgery": the role goes to the outermost function (v_map.go)
+	for i := 0; i < 3; i++ {
+		outer, outerSubj, lifted := liftUnlinkV(r, r.unlink, r.unlinkSubj, pkgFns)
+		if !lifted {
+			break
+		}
+		if r.unlinkInner == nil {
+			r.unlinkInner, r.unlinkInnerSubj = r.unlink, r.unlinkSubj
+		}
+		r.unlink, r.unlinkSubj = outer, outerSubj
+	}
 	c.Role("node.unlink", relName(r.unlink), r.unlink.Pos())
 	c.Saw(r.unlink)
 	{
@@ -277,11 +292,16 @@ func resolveMapRoles(c *Ctx) *mapRoles {
 			}
 		}
 		storesHead := false
-		ir.Instrs(r.unlink, func(in ssa.Instruction) {
-			if _, _, ok := storeToField(in, r.head); ok {
-				storesHead = true
+		for _, ufn := range []*ssa.Function{r.unlink, r.unlinkInner} {
+			if ufn == nil {
+				continue
 			}
-		})
+			ir.Instrs(ufn, func(in ssa.Instruction) {
+				if _, _, ok := storeToField(in, r.head); ok {
+					storesHead = true
+				}
+			})
+		}
 		r.unlinkOwnsHead = !reportsHead
 		r.unlinkStoresHead = storesHead
 		// the mark of a removed but still referenced node: the constant the unlink routine stores into a field of its node
@@ -464,6 +484,9 @@ func appendUniq(s []*types.Var, f *types.Var) []*types.Var {
 //     list of the map, and inside the routine the head is written only where the unlinked node is known to be the head
 //     (it has no predecessor, or it is compared equal to the head).
 func headPropagation(c *Ctx, rule string, r *mapRoles) {
+	if c.unlinkSplitV(r) && r.unlinkOwnsHead {
+		return // a split routine that re-targets the head itself: decided on the normal form only
+	}
 	for _, fn := range c.P.FuncsOf("container/iterable") {
 		for _, call := range callsTo(fn, r.unlink) {
 			if r.unlinkOwnsHead {
@@ -506,6 +529,14 @@ func runC10(c *Ctx) {
 // mapRules runs the structural rules of the ordered map under the rule-id prefix pfx (C10.R, C08.M).
 func mapRules(c *Ctx, pfx string) {
 	r := resolveMapRoles(c)
+	// rs: the roles as the rules about the pointer surgery see them (v_map.go: the inner function of a split unlink routine)
+	rs := r
+	if c.unlinkSplitV(r) {
+		if r.unlinkOwnsHead {
+			return
+		}
+		rs = r.surgeryViewV()
+	}
 	headPropagation(c, pfx+"1", r)
 
 	// R2 recycle only dead nodes
@@ -566,32 +597,8 @@ func mapRules(c *Ctx, pfx string) {
 			c.NoPath(pfx+"3", "append+index", pc, ir.Query{Fn: fn, From: pc, Block: isIdxStore, Target: ir.IsExit},
 				"an entry is appended to the list but not stored into the index")
 		}
-		fn = r.remFn
-		isIdxDel := func(x ssa.Instruction) bool {
-			cc := builtinCall(x, "delete")
-			if cc == nil {
-				return false
-			}
-			_, isVals := loadOfField(cc.Args[0], r.vals)
-			return isVals
-		}
-		uns := callsTo(fn, r.unlink)
-		if len(uns) == 0 {
-			c.Decide(pfx+"3", fn, "unlink+index-delete", nil, false, "Remove does not call the unlink routine")
-		}
-		for _, uc := range uns {
-			c.NoPath(pfx+"3", "unlink+index-delete", uc, ir.Query{Fn: fn, From: uc, Block: isIdxDel, Target: ir.IsExit},
-				"an entry is unlinked but stays in the index")
-		}
-		// and the other direction: no index delete without unlink
-		ir.Instrs(fn, func(x ssa.Instruction) {
-			if isIdxDel(x) {
-				c.NoPath(pfx+"3", "index-delete-after-unlink", x, ir.Query{Fn: fn,
-					Block:  func(y ssa.Instruction) bool { return isCallTo(y, r.unlink) },
-					Target: func(y ssa.Instruction) bool { return y == x }},
-					"an entry is deleted from the index without being unlinked from the list")
-			}
-		})
+		// Remove pairs the unlink with the index delete, in either order (v_map.go)
+		c.removePairsV(r, pfx+"3")
 	}
 	c.R.Floor(pfx+"3", 3)
 
@@ -730,27 +737,29 @@ func mapRules(c *Ctx, pfx string) {
 	c.R.Floor(pfx+"5", 2)
 	c.payloadAndCursorDiscipline(r, pfx+"6", pfx+"7")
 	c.linkCensus(r, pfx+"8")
-	c.unlinkSurgery(r, pfx+"12")
-	c.mapRulesV(r, pfx) // R13, R14 (v_lru_map.go)
+	c.unlinkSurgery(rs, pfx+"12")
+	c.mapRulesV(rs, pfx) // R13, R14 (v_lru_map.go)
+	c.unlinkOnlyUnpinnedV(rs, pfx+"15") // v_map.go
 	// R9 the unlink routine reports as new head nil or its own successor; when it re-targets the head itself, it writes
 	// its own successor, and only where the unlinked node is known to be the head
 	unlinked := ssa.Value(nil)
-	if r.unlinkSubj < len(r.unlink.Params) {
-		unlinked = r.unlink.Params[r.unlinkSubj]
+	if rs.unlinkSubj < len(rs.unlink.Params) {
+		unlinked = rs.unlink.Params[rs.unlinkSubj]
 	}
+	succLink := c.succLinkV(r) // the link towards the tail (v_map.go); nil = not resolved, either link is accepted
 	isSuccessor := func(o ssa.Value) bool {
 		base, isNext := ssa.Value(nil), false
 		if u, isU := ir.Resolve(o).(*ssa.UnOp); isU {
-			if fa, isFA := u.X.(*ssa.FieldAddr); isFA && namedOf(fa.X.Type()) == r.node {
+			if fa, isFA := u.X.(*ssa.FieldAddr); isFA && namedOf(fa.X.Type()) == rs.node && (succLink == nil || ir.FieldOf(fa) == succLink) {
 				base, isNext = fa.X, true
 			}
 		}
 		return isNext && unlinked != nil && ir.Resolve(base) == unlinked
 	}
-	if !r.unlinkOwnsHead {
-		for _, ret := range ir.Returns(r.unlink) {
+	if !rs.unlinkOwnsHead {
+		for _, ret := range ir.Returns(rs.unlink) {
 			ok := true
-			hi, _ := r.unlinkResultIdxD()
+			hi, _ := rs.unlinkResultIdxD()
 			if hi < 0 || hi >= len(ret.Results) {
 				continue
 			}
@@ -762,13 +771,13 @@ func mapRules(c *Ctx, pfx string) {
 					ok = false
 				}
 			}
-			c.Decide(pfx+"9", r.unlink, "new head is nil or the unlinked node's successor", ret, ok, "the unlink routine reports another node than its own successor as new head: the skipped node stays linked without predecessor while head points past it, a later unlink of the head goes through the middle branch and head dangles")
+			c.Decide(pfx+"9", rs.unlink, "new head is nil or the unlinked node's successor", ret, ok, "the unlink routine reports another node than its own successor as new head: the skipped node stays linked without predecessor while head points past it, a later unlink of the head goes through the middle branch and head dangles")
 		}
-		c.unlinkFlagAgreesD(r, pfx+"9", isSuccessor)
+		c.unlinkFlagAgreesD(rs, pfx+"9", isSuccessor)
 	} else {
 		subj := unlinked
-		ir.Instrs(r.unlink, func(in ssa.Instruction) {
-			_, val, isSt := storeToField(in, r.head)
+		ir.Instrs(rs.unlink, func(in ssa.Instruction) {
+			_, val, isSt := storeToField(in, rs.head)
 			if !isSt {
 				return
 			}
@@ -778,24 +787,24 @@ func mapRules(c *Ctx, pfx string) {
 					ok = false
 				}
 			}
-			c.Decide(pfx+"9", r.unlink, "new head is nil or the unlinked node's successor", in, ok, "the unlink routine makes another node than its own successor the new head: the skipped node stays linked without predecessor while head points past it, a later unlink of the head goes through the middle branch and head dangles")
+			c.Decide(pfx+"9", rs.unlink, "new head is nil or the unlinked node's successor", in, ok, "the unlink routine makes another node than its own successor the new head: the skipped node stays linked without predecessor while head points past it, a later unlink of the head goes through the middle branch and head dangles")
 			guarded := hasFactCmp(in.Block(), func(cm ir.Cmp) bool {
 				if cm.Op != token.EQL {
 					return false
 				}
 				for _, xy := range [][2]ssa.Value{{cm.X, cm.Y}, {cm.Y, cm.X}} {
 					// the node has no predecessor
-					if _, isLink := r.linkLoadOf(xy[0], subj); isLink && ir.IsNilConst(xy[1]) {
+					if _, isLink := rs.linkLoadOf(xy[0], subj); isLink && ir.IsNilConst(xy[1]) {
 						return true
 					}
 					// the node is the head
-					if _, isHead := loadOfField(xy[0], r.head); isHead && same(xy[1], subj) {
+					if _, isHead := loadOfField(xy[0], rs.head); isHead && same(xy[1], subj) {
 						return true
 					}
 				}
 				return false
 			})
-			c.Decide(pfx+"9", r.unlink, "head re-targeted only when the unlinked node is the head", in, guarded,
+			c.Decide(pfx+"9", rs.unlink, "head re-targeted only when the unlinked node is the head", in, guarded,
 				"the unlink routine writes the head field on a path where the node it unlinks is not known to be the head (no test that it has no predecessor / equals the head)")
 		})
 	}
@@ -1490,7 +1499,7 @@ func (c *Ctx) linkCensus(r *mapRoles, rule string) {
 		if fn.Signature.Recv() != nil && listT != nil && namedOf(fn.Signature.Recv().Type()) == listT {
 			own = true
 		}
-		if fn == r.unlink || fn == r.putVal {
+		if fn == r.unlink || fn == r.putVal || (r.unlinkInner != nil && fn == r.unlinkInner) {
 			own = true
 		}
 		ir.Instrs(fn, func(in ssa.Instruction) {
@@ -1520,6 +1529,7 @@ func (c *Ctx) linkCensus(r *mapRoles, rule string) {
 // the removed entry's key is retained after every iterator was closed, and First()/Next() at the end of the list report
 // it (with ok=false) instead of the zero key.
 func (c *Ctx) unlinkClearsPayload(r *mapRoles, rule string) {
+	c.unlinkSplitV(r) // a split routine: the call of the inner function changes the node (v_map.go)
 	fn := r.unlink
 	if fn == nil || len(fn.Params) == 0 {
 		c.Fatalf("role unlink routine not resolved")
@@ -1543,13 +1553,16 @@ func (c *Ctx) unlinkClearsPayload(r *mapRoles, rule string) {
 			}
 		}
 	})
+	for _, x := range r.innerUnlinkCallsV(recv) {
+		mutations = append(mutations, x)
+	}
 	for _, p := range payload {
 		p := p
 		// the value is overwritten with zero: itself, or a struct around it as a whole
 		zeroStore := func(x ssa.Instruction) bool {
 			st, ok := x.(*ssa.Store)
 			if !ok {
-				return false
+				return r.innerUnlinkZeroesV(x, recv, p)
 			}
 			base, path, ok := r.nodeFieldPathD(st.Addr)
 			return ok && p.under(path) && same(ir.Resolve(base), recv) && isZero(st.Val)
